@@ -35,6 +35,8 @@ type Check struct {
 	Notes []string
 	// Floors: rule -> minimum number of obligations that rule must have produced (vacuity guard)
 	floors map[string]int
+	// broken: positive controls of the checker itself that did not fire (the rule would be blind)
+	broken []string
 }
 
 func newCheck(id string) *Check {
@@ -61,6 +63,14 @@ func (c *Check) bad(rule, construct, pos, detail string) { c.add(rule, construct
 func (c *Check) note(format string, a ...any)            { c.Notes = append(c.Notes, fmt.Sprintf(format, a...)) }
 func (c *Check) floor(rule string, n int)                { c.floors[rule] = n }
 func (c *Check) stat(name string, n int)                 { c.Stats[name] += n }
+
+// control records a positive control: a construct the rule's engine must recognise on every run.
+func (c *Check) control(ok bool, what string) {
+	c.Stats["positive_controls"]++
+	if !ok {
+		c.broken = append(c.broken, what)
+	}
+}
 
 type knownFinding struct {
 	Property string `json:"property"`
@@ -105,6 +115,12 @@ func (c *Check) finish(o runOpts) int {
 		if perRule[rule] < n {
 			c.bad(rule, "floor", "-", fmt.Sprintf("rule matched %d constructs, expected at least %d: the rule would pass vacuously (anchor lost or idiom no longer recognised)", perRule[rule], n))
 		}
+	}
+	if len(c.broken) > 0 {
+		for _, b := range c.broken {
+			fmt.Printf("CHECKER-BROKEN property=%s positive control did not fire: %s\n", c.ID, b)
+		}
+		return 2
 	}
 	known, err := loadKnown(o.verifDir)
 	if err != nil {
